@@ -51,7 +51,8 @@ type brokerGen struct {
 	filts  []string
 	cbsubs [][2]string
 	pid    int
-	// known-finding classes confined to dedicated episodes
+	// known-finding classes confined to dedicated episodes (allowDollar: no finding any more since
+	// B4 was repaired; '$' levels and '$' topics stay in episodes of their own)
 	allowEmpty, allowDollar, allowOverlap, allowBadFilter bool
 	thorough bool
 	lastConnect map[string]string
@@ -71,7 +72,9 @@ func (g *brokerGen) name() string {
 		n = pick(g.r, []string{"/q", "q/", "q//r", "x/q", "q"})
 	}
 	if g.allowDollar && g.r.Intn(5) == 0 {
-		n = "a/$b"
+		// "a/$b" is an ordinary name (B4, repaired); names beginning with '$' are outside the
+		// properties' quantifier: the oracle leaves those events open, the tie still holds
+		n = pick(g.r, []string{"a/$b", "a/$b", "a/$b", "$SYS/x"})
 	}
 	return n
 }
@@ -82,7 +85,7 @@ func (g *brokerGen) filter() string {
 		f = pick(g.r, []string{"/q", "q/", "q//r", "//q", "q/+/"})
 	}
 	if g.allowDollar && g.r.Intn(5) == 0 {
-		f = pick(g.r, []string{"a/$b", "+/$b"})
+		f = pick(g.r, []string{"a/$b", "+/$b", "a/$b", "+/$b", "$SYS/#", "$SYS/x"})
 	}
 	if g.allowBadFilter && g.r.Intn(4) == 0 {
 		f = pick(g.r, []string{"a/#/b", "a+", "#/a", "a/b#"})
